@@ -324,7 +324,7 @@ func checkC19(c *Ctx, r *Report) {
 				if !ok || !strings.HasSuffix(pathOf(ld), "transport.ErrDigisUnsupported") {
 					continue
 				}
-				if !g.Head.Dominates(okRet.Block()) || g.Head == okRet.Block() {
+				if !g.Head.Dominates(okRet.Block()) || g.Head == okRet.Block() || insideChain(g, okRet.Block()) {
 					continue
 				}
 				depLen, depScheme := false, false
